@@ -505,6 +505,27 @@ def analyse_callers(rep: Report) -> None:
                 if isinstance(m, ast.Subscript) and isinstance(m.slice, ast.Slice) \
                         and m.slice.lower is not None and norm(m.slice.lower) == s_name:
                     uses += 1
+                    # the slice is applied whenever a range was given: a test that guards it may ask whether the
+                    # start `is None`, never whether it is true - a range that starts at byte 0 is a range
+                    child = m
+                    for a_ in ancestors(m):
+                        if isinstance(a_, ast.If) and not any(child is t_ for t_ in ast.walk(a_.test)):
+                            for x_ in ast.walk(a_.test):
+                                if norm(x_) == s_name and isinstance(x_, (ast.Name, ast.Attribute)):
+                                    par_ = getattr(x_, '_parent', None)
+                                    none_test = isinstance(par_, ast.Compare) and len(par_.ops) == 1 \
+                                        and isinstance(par_.ops[0], (ast.Is, ast.IsNot)) \
+                                        and isinstance(par_.comparators[0], ast.Constant) and par_.comparators[0].value is None
+                                    if none_test:
+                                        rep.ok('R13.4', construct, f'slice guarded by `{norm(a_.test)[:40]}`')
+                                    else:
+                                        rep.fail('R13.4', construct, f'slice guarded by `{norm(a_.test)[:40]}`',
+                                                 f'the body is cut to the range only under `{norm(a_.test)}`, which is false for a '
+                                                 f'range that starts at byte 0: `bytes=0-N` is answered 206 with the Content-Range of '
+                                                 'the slice and the whole body', a_)
+                        if a_ is fn:
+                            break
+                        child = a_
                     up = linear(m.slice.upper) if m.slice.upper is not None else None
                     if up == {e_name: 1, '': 1}:
                         rep.ok('R13.4', construct, f'slice:{norm(m)}')
